@@ -15,8 +15,10 @@ RULE = ("cases = (kernel expression tree, point sets X (n,d), Y (m,d)); trees fr
 PARTIAL = ["finite everywhere / agreement with autodiff and finite differences are float64 statements: the Lean theorems are "
            "over R (denominators never vanish; exact factor dist/(dist+1e-12); |kGrad - dk/dy| <= 1e-6*devBound for every "
            "tree); the float side is covered by these runs",
-           "known float64 defect (known_findings.json, C11:finite:pow-lt1-base-underflow): Pow.k_grad with exponent < 1 "
-           "returns NaN where the base kernel value underflows to 0.0; over R the base is positive and the theorem holds",
+           "where a power node's base kernel value underflows to 0.0 (fixed defect C11:finite:pow-lt1-base-underflow: NaN "
+           "before the guard `where(base_k > 0, ..., 0.0)`), only finiteness, exact zeros in unreachable columns and the "
+           "model's guarded value are claimed - the true derivative is below the float range of the factors; Lean: "
+           "kgrad_pow_base_nonpos",
            "finite differences are only applied to the 'sharp' stream (every column gap >= 0.05*scale), because a central "
            "difference cannot resolve the 1e-6-wide regularised kink of the distance at coincident points"]
 ASSUMPTIONS = ["JAX forward-mode AD (`jax.jacfwd`) of `cov.k` returns the derivative of the float computation (trusted contract; "
@@ -213,6 +215,11 @@ def run_case(ctx, res, p):
         elif Gm.shape != G.shape:
             res.corr_fail("model gradient has a different shape", p)
         else:
+            if not np.all(np.isfinite(Gm) | bad_pairs[..., None]):
+                res.corr_fail("model gradient is not finite where the implementation's is", p)
+            Gm = np.where((bad_pairs | under)[..., None] & ~np.isfinite(Gm), 0.0, Gm)
+            if inactive and np.any(Gm[:, :, inactive] != 0):
+                res.corr_fail("model gradient is non-zero in an unreachable column", p)
             Gm = np.where((bad_pairs | under)[..., None], 0.0, Gm)
             okm = go.inside(Gm, iv["lo"], iv["hi"], iv["mass"]) | ~well[..., None]
             width = (iv["hi"] - iv["lo"]) + 2e-13 * iv["mass"] + 1e-300
